@@ -331,6 +331,11 @@ func (fr *frame) contractCall(v ssa.Value, callee *ssa.Function, ct *Contract, a
 	allocPost := u.declConst(fr.tag("alloc_after"), "Int")
 	u.assert("(>= " + allocPost + " " + allocPre + ")")
 	fr.st.set(allocKey, allocPost)
+	for _, wi := range ct.WritesArg {
+		if wi < len(args) {
+			fr.havocThroughArg(args[wi], ct.Key)
+		}
+	}
 	// results
 	var rs []Val
 	res := callee.Signature.Results()
@@ -1291,7 +1296,8 @@ func (fr *frame) afterCall(name string, args []Val, res Val, sig *types.Signatur
 	for _, cl := range fr.contract.After[name] {
 		t, err := env.boolExpr(cl.E)
 		if err != nil {
-			fr.u.bindingError(fmt.Sprintf("after %s assume: %v", name, err))
+			// the clause does not fit this call (another function of the same name): nothing is assumed
+			fr.u.note("%s: 'after %s assume %s' does not apply to the call at %s (%v)", fr.fn.Name(), name, cl.Src, fr.u.eng.pos(fr.blk.Instrs[0].Pos()), err)
 			continue
 		}
 		fr.assume(t)
@@ -1308,4 +1314,35 @@ func (fr *frame) noteArgSet(name string, i int, a Val, t string) {
 	k := u.regKey(fmt.Sprintf("CalledWith.%s.%d", name, i), "(Array "+u.sortOf(a.typ)+" Bool)")
 	u.argKeyType[k] = a.typ
 	fr.st.set(k, "(store "+fr.st.get(u, k)+" "+t+" true)")
+}
+
+// havocThroughArg: the callee stores into the variable its argument points to (decoders): the
+// variable gets an arbitrary well-typed value whose references exist after the call.
+func (fr *frame) havocThroughArg(a Val, who string) {
+	u := fr.u
+	pv := a
+	if a.dynV != nil {
+		pv = *a.dynV
+	}
+	pt, ok := pv.typ.Underlying().(*types.Pointer)
+	if !ok || (pv.ptr == nil && pv.t == "") {
+		fr.havocAll("call to " + who + " stores through an argument that is not a known pointer")
+		return
+	}
+	defer func() {
+		if r := recover(); r != nil {
+			if _, ok := r.(unsupported); !ok {
+				panic(r)
+			}
+			fr.havocAll("call to " + who + " stores through an argument of a type outside the subset")
+		}
+	}()
+	p := fr.asPtr(pv, pv.typ)
+	c := fr.freshOfType("decoded", pt.Elem())
+	for _, rt := range u.refTermsOf(c.t, pt.Elem(), 0) {
+		u.assert("(>= " + rt + " 0)")
+		u.assert("(<= " + rt + " " + fr.st.get(u, allocKey) + ")")
+	}
+	u.storePtr(p, fr.st, c.t)
+	u.note("%s: the variable argument of %s points to receives an arbitrary value (decoded data is not modelled)", fr.fn.Name(), who)
 }
